@@ -203,17 +203,49 @@ func candidates(s *scn.Scenario, stage int) []*scn.Scenario {
 		if s.Mode == "G" && s.Cfg.Yields != scn.YAll {
 			add(func(c *scn.Scenario) { c.Cfg.Yields = scn.YAll })
 		}
-	case 3: // whole documents / expressions (indices are taken modulo, so dropping stays well-formed)
+	case 3: // whole documents / expressions, re-indexing the operations that refer to later ones
+		eachStep := func(c *scn.Scenario, f func(st *scn.Step)) {
+			for i := range c.Steps {
+				f(&c.Steps[i])
+			}
+			for ti := range c.Tasks {
+				for i := range c.Tasks[ti] {
+					f(&c.Tasks[ti][i])
+				}
+			}
+		}
 		if len(s.Docs) > 1 {
 			for i := range s.Docs {
 				i := i
-				add(func(c *scn.Scenario) { c.Docs = append(c.Docs[:i:i], c.Docs[i+1:]...) })
+				n := len(s.Docs)
+				add(func(c *scn.Scenario) {
+					c.Docs = append(c.Docs[:i:i], c.Docs[i+1:]...)
+					eachStep(c, func(st *scn.Step) {
+						st.D %= n
+						if st.D > i {
+							st.D--
+						} else if st.D == i {
+							st.D = 0
+						}
+					})
+				})
 			}
 		}
 		if len(s.Exprs) > 1 {
 			for i := range s.Exprs {
 				i := i
-				add(func(c *scn.Scenario) { c.Exprs = append(c.Exprs[:i:i], c.Exprs[i+1:]...) })
+				n := len(s.Exprs)
+				add(func(c *scn.Scenario) {
+					c.Exprs = append(c.Exprs[:i:i], c.Exprs[i+1:]...)
+					eachStep(c, func(st *scn.Step) {
+						st.E %= n
+						if st.E > i {
+							st.E--
+						} else if st.E == i {
+							st.E = 0
+						}
+					})
+				})
 			}
 		}
 	case 4: // document subtrees, attributes
